@@ -170,8 +170,13 @@ def run_chain(spec, work, ctx):
         d.mkdir()
     tmpd = set_tmpdir(work / 'tmpdir')
     os.chdir(cwd)
+    # class 1: (a, b), (c); class 2: (d, e), (f); b = a plus a few genes,
+    # so that one parent's only pair has markers in one direction only
+    two, one = ((), ()), ((),)
     ref = pw.make_reference(rng, ind, n_levels=3, n_leaves=6, n_genes=24,
                             cells_per_leaf=(8, 12),
+                            forest=((two, one), (two, one)),
+                            nested_siblings=True,
                             encoding=str(rng.choice(['dense', 'csr', 'csc'])))
     watch = [ind, outd, scratch, tmpd, cwd]
     empties = [scratch, tmpd, cwd]
